@@ -1,0 +1,10 @@
+//go:build verif
+
+// Contracts for the deductive verifier in /verif (govc). Only compiled with -tags verif.
+
+package dirs
+
+// C12 (assumption): a file-system probe, writes no program state
+//@ func SupportsClassicConfinement
+//@   trusted
+//@   assigns nothing
